@@ -66,6 +66,8 @@ pub trait Tab: Send {
     fn as_any(&self) -> &dyn Any;
     fn fam(&self) -> Fam;
     fn dup(&self) -> T;
+    /// Clone::clone_from(self, src)
+    fn clone_from_(&mut self, src: &dyn Tab);
     // queries
     fn n(&self) -> usize;
     fn num_bits(&self) -> usize;
@@ -200,6 +202,9 @@ macro_rules! impl_tab {
             }
             fn dup(&self) -> T {
                 Box::new(W(self.0.clone()))
+            }
+            fn clone_from_(&mut self, src: &dyn Tab) {
+                self.0.clone_from(inner::<$ty>(src))
             }
             fn n(&self) -> usize {
                 self.0.num_vars()
